@@ -2,6 +2,7 @@ import KrakenModel.Util.LTS
 import KrakenModel.Model.OriginWB
 import KrakenModel.Proof.C31
 import KrakenModel.Proof.C30Live
+import KrakenModel.Proof.RetryLift
 /-
   C31  An acknowledged origin upload reaches the backend before local deletion.
   Statements are about `Model.OriginWB` (commit / conflict path, writeBack, write-back executor,
@@ -160,84 +161,9 @@ theorem runExecutor_up_backend (dig : Key → Digest) (cache persist : List Dige
   · rename_i h; simpa using h
   · exact (mem_ins _ _ _).mpr (Or.inl rfl)
 
-/-- no Add caller is between its insert and its send -/
-def NoAdding (r : Retry.State) : Prop := ∀ e ∈ r.own, e.2 ≠ .adding
-
-theorem noAdding_place {own : List (Key × Retry.Place)} (h : ∀ e ∈ own, e.2 ≠ .adding) (k : Key)
-    (p : Retry.Place) (hp : p ≠ .adding) : ∀ e ∈ Retry.place own k p, e.2 ≠ .adding := by
-  intro e he
-  simp only [Retry.place, List.mem_append, List.mem_filter, List.mem_singleton] at he
-  rcases he with ⟨he, _⟩ | rfl
-  · exact h e he
-  · exact hp
-
-theorem noAdding_drop {own : List (Key × Retry.Place)} (h : ∀ e ∈ own, e.2 ≠ .adding) (k : Key) :
-    ∀ e ∈ Retry.dropKey own k, e.2 ≠ .adding := by
-  intro e he
-  exact h e (List.mem_filter.mp he).1
-
-theorem noAdding_enqueue (r : Retry.State) (h : NoAdding r) (k : Key) (p : Retry.Pool) :
-    NoAdding (Retry.enqueue r k p).1 := by
-  unfold Retry.enqueue
-  split
-  · exact noAdding_place h k _ (by simp)
-  · split <;> exact noAdding_drop h k
-
-theorem noAdding_step (r : Retry.State) (o : Retry.Op) (h : NoAdding r) (ho : Retry.SysOp o) :
-    NoAdding (Retry.step r o) ∧ (∀ k, o = .addEnq k → Retry.step r o = r) := by
-  cases o <;> simp only [Retry.SysOp] at ho
-  case addEnq k =>
-    have : Retry.placeOf r.own k ≠ some .adding := by
-      intro hp
-      exact h _ (Retry.mem_of_placeOf hp) rfl
-    simp [Retry.step, Retry.stepO, this, h]
-  case pollFetch =>
-    refine ⟨?_, by simp⟩
-    simp only [Retry.step, Retry.stepO]; split <;> exact h
-  case pollMark =>
-    refine ⟨?_, by simp⟩
-    simp only [Retry.step, Retry.stepO]
-    split
-    · exact h
-    · split
-      · exact h
-      · split
-        · split
-          · exact noAdding_place h _ _ (by simp)
-          · exact h
-        · exact h
-  case pollEnq =>
-    refine ⟨?_, by simp⟩
-    simp only [Retry.step, Retry.stepO]
-    split
-    · exact h
-    · exact noAdding_enqueue r h _ _
-  case take p =>
-    refine ⟨?_, by simp⟩
-    simp only [Retry.step, Retry.stepO]
-    split
-    · exact h
-    · split
-      · exact noAdding_place h _ _ (by simp)
-      · exact h
-  case finish k ok =>
-    subst ho
-    refine ⟨?_, by simp⟩
-    simp only [Retry.step, Retry.stepO, if_true]
-    split
-    · exact noAdding_drop h k
-    · exact h
-  case advance dt => exact ⟨h, by simp⟩
-
-theorem restart_facts (r : Retry.State) :
-    (Retry.step (Retry.step r .crash) (.start [])).cfg = r.cfg ∧
-    (Retry.step (Retry.step r .crash) (.start [])).mode = .up ∧
-    (Retry.step (Retry.step r .crash) (.start [])).own = [] := by
-  cases hm : r.mode <;> simp [Retry.step, Retry.stepO, hm]
-
 /-- a lifted system step acts on the retry component exactly like the retry manager's own step and
 touches neither the cache nor the acknowledgements; the backend only grows -/
-theorem lift_step (dig : Key → Digest) (s : State) (o : Retry.Op) (ho : Retry.SysOp o) (hn : NoAdding s.r) :
+theorem lift_step (dig : Key → Digest) (s : State) (o : Retry.Op) (ho : Retry.SysOp o) (hn : Retry.NoAdding s.r) :
     (step dig s (lift o)).r = Retry.step s.r o ∧ (step dig s (lift o)).cache = s.cache ∧
     (∀ x ∈ s.backend, x ∈ (step dig s (lift o)).backend) := by
   cases o <;> simp only [Retry.SysOp] at ho
@@ -260,12 +186,12 @@ theorem lift_step (dig : Key → Digest) (s : State) (o : Retry.Op) (ho : Retry.
       | retrying => simp [Retry.step, Retry.stepO, hp]
       | queued p => simp [Retry.step, Retry.stepO, hp]
   case addEnq k =>
-    have := (noAdding_step s.r (.addEnq k) hn (by simp [Retry.SysOp])).2 k rfl
+    have := (Retry.noAdding_step s.r (.addEnq k) hn (by simp [Retry.SysOp])).2 k rfl
     simp [lift, step, internalOp, this]
   all_goals simp [lift, step, internalOp]
 
 theorem lift_run (dig : Key → Digest) (ops : List Retry.Op) (hs : ∀ o ∈ ops, Retry.SysOp o) (s : State)
-    (hn : NoAdding s.r) :
+    (hn : Retry.NoAdding s.r) :
     ((ops.map lift).foldl (step dig) s).r = ops.foldl Retry.step s.r ∧
     ((ops.map lift).foldl (step dig) s).cache = s.cache ∧
     (∀ x ∈ s.backend, x ∈ ((ops.map lift).foldl (step dig) s).backend) := by
@@ -274,8 +200,8 @@ theorem lift_run (dig : Key → Digest) (ops : List Retry.Op) (hs : ∀ o ∈ op
   | cons o rest ih =>
     have ho := hs o (by simp)
     obtain ⟨a1, a2, a3⟩ := lift_step dig s o ho hn
-    have hn' : NoAdding (step dig s (lift o)).r := by
-      rw [a1]; exact (noAdding_step s.r o hn ho).1
+    have hn' : Retry.NoAdding (step dig s (lift o)).r := by
+      rw [a1]; exact (Retry.noAdding_step s.r o hn ho).1
     obtain ⟨b1, b2, b3⟩ := ih (fun o' h' => hs o' (List.mem_cons_of_mem _ h')) (step dig s (lift o)) hn'
     simp only [List.map_cons, List.foldl_cons]
     exact ⟨by rw [b1, a1], by rw [b2, a2], fun x hx => b3 x (a3 x hx)⟩
@@ -295,10 +221,10 @@ theorem eventually_in_backend (dig : Key → Digest) (s : State) (hi : Inv dig s
   have hr1 : s1.r = Retry.step (Retry.step s.r .crash) (.start []) := rfl
   have hgood : Retry.Good s1.r := by rw [hr1]; exact good_restart _ hi.good
   obtain ⟨hcfg1, hup, hown⟩ : s1.r.cfg = s.r.cfg ∧ s1.r.mode = .up ∧ s1.r.own = [] := by
-    rw [hr1]; exact restart_facts s.r
+    rw [hr1]; exact Retry.restart_facts s.r
   have hst1 : k ∈ Retry.keys s1.r.rows := by rw [hr1]; exact kept_restart _ k hstored
   obtain ⟨ops, hsys, p, hp⟩ := Retry.can_reach_exec s1.r hgood hup (hcfg1 ▸ hc) k hst1
-  have hn1 : NoAdding s1.r := by intro e he; rw [hown] at he; cases he
+  have hn1 : Retry.NoAdding s1.r := by intro e he; rw [hown] at he; cases he
   obtain ⟨l1, l2, l3⟩ := lift_run dig ops hsys s1 hn1
   refine ⟨.restart :: (ops.map lift ++ [.exec k true]), ?_, ?_⟩
   · intro o ho
